@@ -276,6 +276,17 @@ fn families(thorough: bool) -> Vec<Family> {
         f("bin-k2-c1", &[VK::Add, VK::Sub, VK::Mul, VK::Div], &all, 2, 1, 2, 1, &[0, 2], 0),
         f("mixed-k2-c1", &[VK::Add, VK::Mul, VK::MulAdd, VK::Select, VK::Horner, VK::Bits(2)], &[AK::Connect], 2, 1, 2, 0, &[2], 1),
     ];
+    // optimizer passes that iterate hash maps need several candidates at once: products first,
+    // then sums over inputs, products and sums (MulAdd fusion with cross-dependent candidates);
+    // duplicate operations over aliased inputs (ALU de-duplication)
+    {
+        use vpe1::families::{stage, staged};
+        v.push(staged("products-2-then-add-2", vec![stage(&[VK::Mul], 2, &[0], true, false), stage(&[VK::Add], 2, &[0, 1, 2], false, false)], &[], 0, 3, &[]));
+        v.push(staged("dedup-4ops-2in", vec![stage(&[VK::Add, VK::Mul], 4, &[0], true, false)], &[AK::Connect], 1, 2, &[]));
+        if thorough {
+            v.push(staged("products-3-then-addsub-3", vec![stage(&[VK::Mul], 3, &[0], true, false), stage(&[VK::Add, VK::Sub], 3, &[0, 1, 2], false, false)], &[], 0, 3, &[]));
+        }
+    }
     if thorough {
         v.push(f("bin-k3-c2", &[VK::Add, VK::Sub, VK::Mul, VK::Div], &all, 3, 2, 2, 1, &[2], 0));
         v.push(f("mixed-k3-c1", &[VK::Add, VK::Mul, VK::MulAdd, VK::Horner, VK::Bits(2), VK::Bits(3)], &[AK::Connect, AK::AssertZero], 3, 1, 2, 1, &[2], 2));
